@@ -45,12 +45,19 @@ def replay_model(doc):
     except rt.PreconditionFailed as p:
         return 2, f"model does not satisfy requires natively ({p.clause}); abstraction artefact"
     except rt.ContractViolation as v:
+        # a solver model is partial: an object the obligation did not constrain comes back without its fields, and
+        # the real code then dies on it with AttributeError / TypeError. That is an artefact of the model, not a
+        # failing input: the obligation is still reported as failed, but without a claimed input.
+        if v.kind in ("unexpected-exception", "ensures-not-evaluable") and any(x in f"{v.clause} {v.detail}" for x in ("AttributeError", "TypeError")):
+            return 2, f"counter-model is partial, not executable as it stands ({v.kind}: {v.clause} {v.detail})"[:400]
         return 1, f"{v.kind}: {v.clause} {v.detail}"
     except Timeout:
         return 1, "no return within 5 s"
     except Exception as e:  # noqa: BLE001
         if any(type(e).__name__ == x or any(t.__name__ == x for t in type(e).__mro__) for x in c.raises):
             return 0, f"raised allowed {type(e).__name__}"
+        if isinstance(e, (AttributeError, TypeError)):
+            return 2, f"counter-model is partial, not executable as it stands ({type(e).__name__}: {e})"[:400]
         return 1, f"unexpected {type(e).__name__}: {e}"
     finally:
         signal.alarm(0)
